@@ -142,10 +142,9 @@ class NamespaceFunction(Namespace[symtable.Function]):
         self.nonlocal_parameters = set()
         self.outer_nonlocal_map = {}
 
-        if (
-            isinstance(stack[-1], NamespaceClass)
-            and self.symt.get_name() in stack[-1].symt.get_methods()  # type: ignore # todo:don't use get_methods
-        ):
+        if isinstance(stack[-1], NamespaceClass):
+            # a def written directly in a class body
+            # (Class.get_methods() leaves private names out on 3.13 and is deprecated)
             self.is_method = True
 
         for nonlocal_free in itertools.chain(
